@@ -64,10 +64,10 @@ def run(ctx):
                       "items": _items(rng, ["a", "b", "c"], RELS, ["r"], n=None if not ctx.quick else 10)})
     meta["replayed_states"] = len(take)
     # random worlds: 2-6 components among the root's packages, random relation, alias / name / form mixing
+    from harness.world import PREFIX_POOL
     n_worlds = 150 if ctx.quick else 3000
     made = 0
     while made < n_worlds:
-        from harness.world import PREFIX_POOL
         w = random_world(rng, n_modules=rng.randint(8, 26), n_imports=rng.randint(2, 45),
                          pool=PREFIX_POOL if rng.random() < 0.5 else None)      # component names that prefix each other
         tops = [m for m in w.modules if len(m) == 2]
@@ -127,6 +127,39 @@ def run(ctx):
             rels.append(sorted(rel))
         specs.append({"driver": "diagram", "world": w.json(), "items": _items(rng, comps, rels, base, n=8)})
     meta["worlds_with_dotted_components_below_a_base"] = n_nested
+    # one DiagramRule object, several base modules: two sibling packages r.p / r.q with the same inner structure and
+    # different imports; the rule object is built once and re-targeted with with_base_module(..) before each evaluation
+    # (p, q, p, ..) - each evaluation must be the one of a fresh rule for that base module
+    n_twin = 60 if ctx.quick else 1200
+    made = 0
+    while made < n_twin:
+        w0 = random_world(rng, n_modules=rng.randint(6, 16), n_imports=rng.randint(2, 30),
+                          pool=PREFIX_POOL if rng.random() < 0.5 else None)
+        tops = [m for m in w0.modules if len(m) == 2]
+        if len(tops) < 2:
+            continue
+        made += 1
+        P, Q = ("r", "p"), ("r", "q")
+        inner = [tuple(m[1:]) for m in w0.modules if len(m) > 1]
+        imps0 = [(tuple(u[1:]), tuple(v[1:])) for u, v in w0.imports if len(u) > 1 and len(v) > 1]
+        imps_q = [e for e in imps0 if rng.random() < 0.6]
+        cands = [(u, v) for u in inner for v in inner if u[0] != v[0]]
+        imps_q += rng.sample(cands, min(len(cands), rng.randint(0, 3)))
+        mods = [("r",), P, Q] + [P + m for m in inner] + [Q + m for m in inner]
+        imps = sorted({(P + u, P + v) for u, v in imps0} | {(Q + u, Q + v) for u, v in imps_q})
+        w = World(mods, imps)
+        comps = [m[1] for m in rng.sample(tops, rng.randint(2, min(4, len(tops))))]
+        pairs = [(a, b) for a in comps for b in comps if a != b]
+        actual = sorted({(u[0], v[0]) for u, v in imps0 if u[0] in comps and v[0] in comps and u[0] != v[0]})
+        items = []
+        for k, rel in enumerate([actual, sorted(rng.sample(pairs, rng.randint(0, min(len(pairs), 3))))]):
+            for only in (True, False):
+                for j, base in enumerate(rng.choice([[P, Q, P], [Q, P, Q, P], [P, Q]])):
+                    items.append({"op": "deval", "a": 0, "rid": f"R{k}{int(only)}{j}", "robj": f"{k}{int(only)}",
+                                  "comps": [[c] for c in comps], "deps": [([a], [b]) for a, b in rel], "only": only,
+                                  "base": list(base)})
+        specs.append({"driver": "diagram", "world": w.json(), "items": items})
+    meta["worlds_with_one_rule_object_retargeted_between_sibling_packages"] = n_twin
     episodes = runner.run_specs(specs, 16)
     tr = trace.validate(episodes, "Trace_Diagram.tla", "Trace_Diagram.cfg", procs=16)
     fails = attach(tr, specs, episodes)
